@@ -31,7 +31,7 @@ CHECKS = {
          'DESIGN.md section 5 / C08'),
  'C09': ('effect (purity) analysis over resolved self-calls, dependence closure from the placement to the returned command, interface/table completeness',
          'Static analysis of the 13 launch-method classes of the factory table: no history-dependent store to self.* that flows into a command (the command depends only on the task at hand); the returned command and written host/rank files depend on the node names/indices of task[slots]; a launcher whose command does not depend on the rank count refuses multi-rank tasks (comparison evaluated for n=2..9); every class provides the five query methods, can_launch returns a 2-tuple on every path, find_launcher iterates the configured order and returns at the first acceptance. May-depend, not the option semantics of each MPI flavour.',
-         'Trusted: ru.create_hostfile writes what it is given. Not decided: flavour-specific option semantics. Known findings K3a/K3b (APRun, CCMRun ignore the placement).',
+         'Trusted: ru.create_hostfile writes what it is given. Not decided: flavour-specific option semantics and the format options of files written by radical.utils helpers (seeded changes C09-g4 / C09-j2: `impaired=True` dropped from create_hostfile - not caught, DESIGN section 9). Known findings K3a/K3b (APRun, CCMRun ignore the placement).',
          'DESIGN.md section 5 / C09'),
  'C10': ('table-driven def-use of every RP_* export, taint of arguments/environment values through the quoter, reachability order of script sections',
          'Static analysis of the script generators: each RP_* export is fed by the source frozen in the table (ids, sandboxes, per-rank figures, control addresses from addr_pub/addr_sub); every element of td[arguments] reaches the command only through ru.sh_quote; section order of the exec and launch scripts (env, rank ids, task env, pre_exec, exec, post_exec; cd, launcher env, pre_launch, launch with stdout/stderr redirect, post_launch), exit-code capture directly after the command, the per-rank switch covers range(n_ranks). Decides the Python side only.',
